@@ -217,7 +217,7 @@ pub fn main(ctx: &Ctx) -> i32 {
         };
         return replay(ctx, &body);
     }
-    let runs: u64 = ctx.tier.pick(1200, 24000);
+    let runs: u64 = ctx.tier.pick(4000, 80000);
     let res = crate::core::pool::run_jobs(runs, |idx| {
         let mut out = RunOut::default();
         one_run(ctx, idx, &mut out);
